@@ -11,7 +11,6 @@
 From Coq Require Import QArith Qround Qabs List Bool Arith ZArith Lia.
 Import ListNotations.
 From PV Require Import Lib.WLS BSpline.Eval BSpline.Fit BSpline.Iter.
-From PV Require C17.Model.
 Open Scope Q_scope.
 
 Definition EPS : Q := 1 # 8388608.      (* np.finfo(np.float32).eps = 2^-23 *)
@@ -67,7 +66,8 @@ Definition usable (ss : list nat) (f : option gfit) : option gfit :=
 Definition spline_at (k : nat) (g : gfit) (p : Q) : Q * bool :=
   let gb := select (g_bkmask g) (g_bk g) in
   let gc := select (skipn k (g_bkmask g)) (g_coeff g) in
-  (eval1 gb k gc p, point_mask (g_bk g) (g_bkmask g) k p).
+  (* fewer than 2*nord unmasked breakpoints: action() returns its (-2, 0, 0) sentinel and value() leaves zeros *)
+  (if (2 * k <=? length gb)%nat then eval1 gb k gc p else 0, point_mask (g_bk g) (g_bkmask g) k p).
 
 Definition inside_b (lo hi p : Q) : bool := Qle_bool (lo - EPS) p && Qle_bool p (hi + EPS).
 
@@ -143,12 +143,40 @@ Definition grow (v : list Q) : list Q :=
   let upper := map (fun i => Nat.min (i + 2) (n - 1)) ibad in
   set_many upper (map (fun _ => 0) upper) (set_many lower (map (fun _ => 0) lower) v).
 
-(* ------------------------------------------------------------------ the whole function *)
-Inductive amethod := Traditional | Noconst | Mean | Nothing.
-Definition to17 (m : amethod) : C17.Model.amethod :=
-  match m with Traditional => C17.Model.Traditional | Noconst => C17.Model.Noconst
-             | Mean => C17.Model.Mean | Nothing => C17.Model.Nothing end.
+(* ------------------------------------------------------------------ aesthetics (own copy, reduced fractions)
+   djs_maskinterp1(yval, mask) with xval = None: the good samples at their indices are interpolated linearly
+   (np.interp clamps, so `const` makes no difference); 'mean' puts the mean of the good fluxes everywhere else *)
+Definition qnat (n : nat) : Q := inject_Z (Z.of_nat n).
+Fixpoint good_table (i : nat) (ys : list Q) (bad : list bool) : list (Q * Q) :=
+  match ys, bad with
+  | y :: ys', b :: bad' => if b then good_table (S i) ys' bad' else (qnat i, y) :: good_table (S i) ys' bad'
+  | _, _ => []
+  end.
+Definition maskinterp_idx (ys : list Q) (bad : list bool) : list Q :=
+  if forallb negb bad then ys
+  else match good_table 0 ys bad with
+       | [] => ys
+       | [g] => map (fun _ : Q => snd g) ys
+       | tbl => map (fun t : nat * (Q * bool) => if snd (snd t) then Qred (interp tbl (qnat (fst t))) else fst (snd t))
+                    (combine (seq 0 (length ys)) (combine ys bad))
+       end.
+Definition qsum_red (l : list Q) : Q := fold_left (fun acc v => Qred (acc + v)) l 0.
 
+Inductive amethod := Traditional | Noconst | Mean | Nothing.
+Definition aesthetics_model (meth : amethod) (flux iv : list Q) : list Q :=
+  let bad := map (fun v => Qeq_bool v 0) iv in
+  if existsb (fun b => b) bad then
+    match meth with
+    | Traditional | Noconst => maskinterp_idx flux bad
+    | Mean =>
+        let gs := select (map (fun v => Qltb 0 v) iv) flux in
+        let mu := Qred (qsum_red gs / qnat (length gs)) in
+        map (fun fg : Q * Q => if Qltb 0 (snd fg) then fst fg else mu) (combine flux iv)
+    | Nothing => flux
+    end
+  else flux.
+
+(* ------------------------------------------------------------------ the whole function *)
 Record cin := mkCin {
   c_inloglam : list Q; c_flux : list Q; c_ivar : option (list Q);   (* flat *)
   c_specnum : list nat; c_nspec : nat; c_newloglam : list Q;
@@ -184,14 +212,17 @@ Definition stages (c : cin) (fits : list (option gfit)) : st * list Q :=
             (seq 0 (c_nspec c)) (map (fun _ => 0) (c_newloglam c)) in
   (s, iv).
 
-Definition combine1fiber_model (c : cin) (fits : list (option gfit)) : list Q * list Q :=
+(* (newflux, newivar, fullcombmask) *)
+Definition combine1fiber_full (c : cin) (fits : list (option gfit)) : list Q * list Q * list bool :=
   match good_index c with
-  | [] => (map (fun _ => 0) (c_newloglam c), map (fun _ => 0) (c_newloglam c))
+  | [] => (map (fun _ => 0) (c_newloglam c), map (fun _ => 0) (c_newloglam c), map (fun _ => false) (c_inloglam c))
   | _ =>
       let '(s, iv) := stages c fits in
       let newivar := grow iv in
-      (C17.Model.aesthetics_model (to17 (c_method c)) (s_flux s) newivar, newivar)
+      (aesthetics_model (c_method c) (s_flux s) newivar, newivar, s_comb s)
   end.
+Definition combine1fiber_model (c : cin) (fits : list (option gfit)) : list Q * list Q :=
+  fst (combine1fiber_full c fits).
 
 (* the fits computed by the C10 model instead of being recorded: knots from the bkspace option on the group's
    abscissae, no breakpoint masked (requiren = 1 never fires when every knot interval holds a pixel) *)
@@ -204,6 +235,26 @@ Definition model_fit (sv : solver) (maxiter : nat) (lower upper bkspace : Q) (k 
   let gb := knots_of_option (OBkspace bkspace) (map dx ds) k 1 in
   match iter_loop sv (S maxiter) gb k lower upper ds (initial_mask ds) with
   | Some (coef, m) => Some (mkGfit gb (map (fun _ => true) gb) coef m)
+  | None => None
+  end.
+
+(* ------------------------------------------------------------------ preprocess_spectra: de-redshifting
+   every object's wavelength vector is handed to combine1fiber as rowloglam - logshift, logshift = log10(1+z)
+   (a parameter here: the logarithm is not rational) *)
+Definition shift_grid (shift : Q) (loglam : list Q) : list Q := map (fun L => L - shift) loglam.
+Definition with_inloglam (c : cin) (l : list Q) : cin :=
+  mkCin l (c_flux c) (c_ivar c) (c_specnum c) (c_nspec c) (c_newloglam c) (c_maxsep c) (c_k c) (c_method c) (c_isort c).
+Definition preprocess_model (shift : Q) (c : cin) (fits : list (option gfit)) : list Q * list Q :=
+  combine1fiber_model (with_inloglam c (shift_grid shift (c_inloglam c))) fits.
+
+(* joint rescaling of the data: flux * s, ivar / s^2 ; and of recorded fits: coefficients * s *)
+Definition scale_cin (s : Q) (c : cin) : cin :=
+  mkCin (c_inloglam c) (map (fun f => f * s) (c_flux c))
+        (match c_ivar c with Some iv => Some (map (fun v => v / (s * s)) iv) | None => None end)
+        (c_specnum c) (c_nspec c) (c_newloglam c) (c_maxsep c) (c_k c) (c_method c) (c_isort c).
+Definition scale_fit (s : Q) (f : option gfit) : option gfit :=
+  match f with
+  | Some g => Some (mkGfit (g_bk g) (g_bkmask g) (map (fun a => a * s) (g_coeff g)) (g_bmask g))
   | None => None
   end.
 
@@ -271,8 +322,7 @@ Inductive case :=
 | CComb (c : cin) (fits : list (option gfit)) (obs_comb : list bool) (newflux newivar : list Q).
 
 Definition model_ok (c : cin) (fits : list (option gfit)) (obs_comb : list bool) (newflux newivar : list Q) : bool :=
-  let '(mf, mi) := combine1fiber_model c fits in
-  let comb := match good_index c with [] => map (fun _ => false) (c_inloglam c) | _ => s_comb (fst (stages c fits)) end in
+  let '(mf, mi, comb) := combine1fiber_full c fits in
   all2 Bool.eqb comb obs_comb &&
   all2 (fun a b => Bool.eqb (Qeq_bool a 0) (Qeq_bool b 0) && close_rel rtol9 a b) newivar mi &&
   all2 (close_rel rtol6) newflux mf.
@@ -290,8 +340,7 @@ Definition run_cases : list case -> list Z := map run_case.
 Definition diagnose (cs : case) : list bool :=
   match cs with
   | CComb c fits obs_comb newflux newivar =>
-      let '(mf, mi) := combine1fiber_model c fits in
-      let comb := match good_index c with [] => map (fun _ => false) (c_inloglam c) | _ => s_comb (fst (stages c fits)) end in
+      let '(mf, mi, comb) := combine1fiber_full c fits in
       [all2 Bool.eqb comb obs_comb;
        all2 (fun a b => Bool.eqb (Qeq_bool a 0) (Qeq_bool b 0)) newivar mi;
        all2 (close_rel rtol9) newivar mi;
